@@ -1,6 +1,6 @@
 From Coq Require Import Extraction ExtrOcamlBasic NArith ZArith List.
-From Storage Require Import Base.Bytes Ast.F64 Ast.Values Ast.Schema Ast.Untyped Ast.Typed Ast.Typer Ast.Eval Ast.Spec Ast.FmtFloat Ast.ChildStore.
+From Storage Require Import Base.Bytes Ast.F64 Ast.Values Ast.Schema Ast.Untyped Ast.Typed Ast.Typer Ast.Eval Ast.Spec Ast.FmtFloat Ast.ChildStore Ast.Session.
 Extraction Language OCaml.
 Definition force_types : nat * N * Z := (O, 0%N, 0%Z).
 Extraction "c01_model.ml" force_types typer query_ids iterate_ids spec_ids spec fmt_float_int fmt_float_go fmt_time_none
-  resolve of_int64 dec feq flt child_db child_decl strategy_check matching page.
+  resolve of_int64 dec feq flt child_db child_decl strategy_check matching page refine unpaged.
